@@ -1479,6 +1479,9 @@ class _ConnectionFairy(PoolProxiedConnection):
             return
         if self._connection_record:
             self._connection_record.invalidate(e=e, soft=soft)
+        elif not soft:
+            # a detached connection has no record that would close it
+            self._pool._close_connection(self.dbapi_connection, terminate=True)
         if not soft:
             # prevent any rollback / reset actions etc. on
             # the connection
